@@ -126,6 +126,38 @@ theorem stepTake_objinv {s s' : State} {i : Nat} {pc : TPc} {o : Obj} {add : Boo
        · exact v.log e he
        · rcases he with rfl | rfl <;> trivial)
 
+theorem stepTakePanic_objinv {s s' : State} {i : Nat} {o : Obj} {add : Bool}
+    (h : s.ops[i]? = some (.take .detach o add)) (v : ObjInv s)
+    (hs : stepTakePanic s i o = some s') : ObjInv s' := by
+  simp only [stepTakePanic, Option.some.injEq] at hs
+  subst hs
+  refine ⟨v.idle, v.out, ?_, v.sorted, ?_⟩
+  · exact forall_mem_set (P := Op.objOK s.now) (i := i) v.ops trivial
+  · intro e he
+    simp only [State.setOp, State.emit, List.mem_append, List.mem_cons, List.not_mem_nil,
+      or_false] at he
+    rcases he with he | rfl | rfl | rfl
+    · exact v.log e he
+    · trivial
+    · trivial
+    · trivial
+
+theorem stepRetPanic_objinv {s s' : State} {i : Nat} {o : Obj}
+    (h : s.ops[i]? = some (.ret .detach o)) (v : ObjInv s)
+    (hs : stepRetPanic s i o = some s') : ObjInv s' := by
+  simp only [stepRetPanic, Option.some.injEq] at hs
+  subst hs
+  refine ⟨v.idle, v.out, ?_, v.sorted, ?_⟩
+  · exact forall_mem_set (P := Op.objOK s.now) (i := i) v.ops trivial
+  · intro e he
+    simp only [State.setOp, State.emit, List.mem_append, List.mem_cons, List.not_mem_nil,
+      or_false] at he
+    rcases he with he | rfl | rfl | rfl
+    · exact v.log e he
+    · trivial
+    · trivial
+    · trivial
+
 theorem stepResize_objinv {s s' : State} {i n old : Nat} {isClose : Bool} {pc : ZPc}
     (h : s.ops[i]? = some (.resize n isClose pc old)) (v : ObjInv s)
     (hs : stepResize s i n isClose pc old = some s') : ObjInv s' := by
@@ -227,12 +259,18 @@ theorem stepOp_objinv {s s' : State} {i : Nat} {oc : Outcome} (v : ObjInv s)
       simp only at hs
       split at hs
       · exact stepRet_objinv h v hs
-      · simp at hs
+      · split at hs
+        · have := retPanic_pc ‹_›; subst this
+          exact stepRetPanic_objinv h v hs
+        · simp at hs
     | take pc o add =>
       simp only at hs
       split at hs
       · exact stepTake_objinv h v hs
-      · simp at hs
+      · split at hs
+        · have := takePanic_pc ‹_›; subst this
+          exact stepTakePanic_objinv h v hs
+        · simp at hs
     | resize n cl pc old =>
       simp only at hs
       split at hs
